@@ -272,6 +272,15 @@ Proof. intros. rewrite run_get, run_get_file, run_get_bytes. auto. Qed.
 
 End Seq.
 
+(* the structural flags read from the source hold: the guarded programs are their bodies *)
+Lemma copy_rewrite_eq : forall H rd out size bigger,
+  copy_rewrite H rd out size bigger = copy_rewrite_body H rd out size bigger.
+Proof. reflexivity. Qed.
+Lemma put_index_prog_eq : forall id out size tm, put_index_prog id out size tm = put_index_body id out size tm.
+Proof. reflexivity. Qed.
+Lemma put_prog_eq : forall H id rd tm, put_prog H id rd tm = put_prog_body H id rd tm.
+Proof. reflexivity. Qed.
+
 Lemma open_copy_small : forall p, open_with p (copy_open_flags ++ []) = OOpen p true false.
 Proof. reflexivity. Qed.
 Lemma open_copy_big : forall p, open_with p (copy_open_flags ++ copy_open_flags_big) = OOpen p true true.
@@ -303,7 +312,7 @@ Lemma seq_copy_rewrite_honest : forall chunks fs bigger,
               /\ fs' p = Some d /\ agree_except p fs fs'.
 Proof.
   intros chunks fs bigger d p Hlen.
-  unfold copy_rewrite. fold p.
+  rewrite copy_rewrite_eq; unfold copy_rewrite_body. fold p.
   assert (exists fs1, step (open_with p (copy_open_flags ++ (if bigger then copy_open_flags_big else []))) fs = (fs1, ROk)
             /\ fs1 p = Some (opened (fs p) bigger) /\ agree_except p fs fs1) as (fs1 & E1 & Hp1 & Ha1).
   { destruct bigger; [rewrite open_copy_big|rewrite open_copy_small]; cbn [step]; unfold opened;
@@ -375,7 +384,7 @@ Lemma seq_put_index : forall fs id out size tm,
               /\ fs' (IdxP id) = Some (encode_entry id out (Z.of_nat size) tm)
               /\ agree_except (IdxP id) fs fs'.
 Proof.
-  intros fs id out size tm. unfold put_index_prog. rewrite open_index.
+  intros fs id out size tm. rewrite put_index_prog_eq; unfold put_index_body. rewrite open_index.
   set (p := IdxP id). set (e := encode_entry id out (Z.of_nat size) tm).
   cbn [run_seq step].
   destruct (fs p) as [c|] eqn:Ec.
@@ -401,7 +410,7 @@ Lemma seq_put_ok : forall chunks fs id tm,
               /\ fs' (IdxP id) = Some (encode_entry id (H d) (Z.of_nat (length d)) tm)
               /\ (forall q, q <> DatP (H d) -> q <> IdxP id -> fs' q = fs q).
 Proof.
-  intros chunks fs id tm d Hcol. unfold put, put_prog. cbn [honest_reader rd_seek1 rd_ok1 rd_pass1 negb orb].
+  intros chunks fs id tm d Hcol. unfold put; rewrite put_prog_eq; unfold put_prog_body. cbn [honest_reader rd_seek1 rd_ok1 rd_pass1 negb orb].
   fold d. rewrite run_seq_bind.
   destruct (seq_copy_file_honest chunks fs Hcol) as (fs1 & E1 & Hd1 & Ha1). fold d in E1, Hd1, Ha1.
   rewrite E1. rewrite run_seq_bind.
@@ -480,7 +489,7 @@ Proof. intros S p Hp. unfold trunc_fail. only_tac. Qed.
 Lemma only_paths_copy_rewrite : forall (S : path -> Prop) rd out size bigger,
   S (DatP out) -> only_paths S (copy_rewrite H rd out size bigger).
 Proof.
-  intros S rd out size bigger Hp. unfold copy_rewrite, open_with.
+  intros S rd out size bigger Hp. rewrite copy_rewrite_eq; unfold copy_rewrite_body, open_with.
   pose proof (only_paths_trunc_fail S (DatP out) Hp) as Ht.
   apply only_op; [exact Hp|]. intros r. destruct r; try apply only_ret.
   destruct (Nat.eqb size 0); [only_tac|]. destruct (negb (rd_seek2 rd)); [exact Ht|].
@@ -505,14 +514,14 @@ Qed.
 
 Lemma only_paths_put_index : forall (S : path -> Prop) id out size tm,
   S (IdxP id) -> only_paths S (put_index_prog id out size tm).
-Proof. intros S id out size tm Hp. unfold put_index_prog, open_with. only_tac. Qed.
+Proof. intros S id out size tm Hp. rewrite put_index_prog_eq; unfold put_index_body, open_with. only_tac. Qed.
 
 Definition put_paths (id out : bytes) (q : path) : Prop := q = DatP out \/ q = IdxP id.
 
 Lemma only_paths_put : forall id rd tm,
   only_paths (put_paths id (H (rd_pass1 rd))) (put_prog H id rd tm).
 Proof.
-  intros id rd tm. unfold put_prog. destruct (negb (rd_seek1 rd) || negb (rd_ok1 rd)); [apply only_ret|].
+  intros id rd tm. rewrite put_prog_eq; unfold put_prog_body. destruct (negb (rd_seek1 rd) || negb (rd_ok1 rd)); [apply only_ret|].
   apply only_paths_bind.
   - apply only_paths_copy_file. left; reflexivity.
   - intros ok. destruct ok; [|apply only_ret]. apply only_paths_bind.
